@@ -79,6 +79,11 @@ func gen(g *GenCtx) {
 			}
 		}
 	}
+	// a certificate that runs out while the server is up (the server has verified others before)
+	for _, m := range []string{"xx", "ik"} {
+		emit(m, "store", "ok", "lapsed", 0, "name")
+	}
+	emit("xx", "both", "ok", "lapsed", 0, "name")
 	genCallbacks(g, emit)
 	n := 40
 	if g.Thorough() {
